@@ -476,6 +476,11 @@ class Concatenator(Group):  # pylint: disable=too-many-public-methods
             if child not in self._children:
                 continue
 
+            if not isinstance(child, Concatenated):
+                # ordinary children (comments, files) are linked like in any other group
+                super().remove_children([child])
+                continue
+
             self.remove_entity(child)
 
     def remove_entity(self, entity: Concatenated | ConcatenatedPropertyGroup):
